@@ -192,6 +192,15 @@ func Gen(seed int64, index int, o GenOpts) *Case {
 			ts.ParamSets = []Params{{SPS: H264BFrameSPS, PPS: H264PPS[0]}}
 			c.Features["bframes"] = true
 		}
+		// Name / Language / IsDefault are documented "for audio renditions only": setting them on
+		// the video track is legal and must not influence the renditions
+		if chance(0.15) {
+			ts.IsDefault = true
+			c.Features["video-default-flag"] = true
+		}
+		if chance(0.1) {
+			ts.Name, ts.Language = "videoname", "vv"
+		}
 		specs = append(specs, ts)
 	}
 	defaultGiven := false
